@@ -3,6 +3,7 @@ package vg
 import (
 	"go/token"
 	"go/types"
+	"strings"
 
 	"golang.org/x/tools/go/ssa"
 )
@@ -229,6 +230,73 @@ func runC08(c *Ctx) {
 			}
 			c.Check(good, "C08.1", FuncName(ra.read), "copy-accounts-bytes", call.Pos(),
 				"the cursor update after copying envelope bytes accounts exactly for the bytes copied", why)
+		}
+	}
+
+	// ---------------------------------------------------------------- C08.3
+	c.Rule("C08.3", "bytes obtained from the per-message source are always handed to the caller", 3)
+	for _, ra := range ras {
+		fn := ra.read
+		for _, call := range Calls(fn) {
+			if !ra.isPayloadRead(call) {
+				continue
+			}
+			cv, ok := call.(*ssa.Call)
+			if !ok {
+				continue
+			}
+			var nRes ssa.Value
+			for _, ref := range *cv.Referrers() {
+				if ex, ok := ref.(*ssa.Extract); ok && ex.Index == 0 {
+					nRes = ex
+				}
+			}
+			if nRes == nil {
+				continue
+			}
+			c.CountSite()
+			paths, ok := EnumPaths(cv.Block(), nil, IsReturn, 20000)
+			if !ok {
+				c.Unknown("C08.3", FuncName(fn), "paths", cv.Pos(), "too many paths")
+				continue
+			}
+			bad := 0
+			for _, cp := range paths {
+				nName := cp.Canon(nRes)
+				ret := cp.End.(*ssa.Return)
+				if ret.Block() == fn.Recover {
+					continue
+				}
+				// the call must actually be on the path (it is in the start block, but the path may start before it textually)
+				cnt := cp.Canon(ret.Results[0])
+				if strings.Contains(cnt, nName) {
+					continue
+				}
+				// n known to be zero on this path?
+				zero := false
+				for cond, truth := range cp.Truth {
+					b, ok := cond.(*ssa.BinOp)
+					if !ok {
+						continue
+					}
+					k, isK := ConstInt(b.Y)
+					if !isK || k != 0 {
+						continue
+					}
+					if !strings.Contains(cp.Canon(b.X), nName) {
+						continue
+					}
+					if b.Op == token.GTR && !truth || b.Op == token.EQL && truth || b.Op == token.NEQ && !truth || b.Op == token.LEQ && truth {
+						zero = true
+					}
+				}
+				if !zero {
+					bad++
+				}
+			}
+			c.Check(bad == 0, "C08.3", FuncName(fn), "bytes-read-are-returned", cv.Pos(),
+				"on every path after this read the returned count includes the bytes read, or the read is known to have produced none ("+itoa(len(paths))+" paths)",
+				itoa(bad)+" path(s) continue after this read without returning its bytes although the read may have produced some (e.g. data delivered together with io.EOF): request bytes are silently dropped depending on how the body is segmented")
 		}
 	}
 
